@@ -3,8 +3,11 @@
 
 Parts (each: TLC-made scenarios -> real code -> recorded trace -> TLC trace validation):
   ctl    long runs of the real controller + attester + sync committee messenger / aggregator
-         (virtual time, recording scheduler); Trace_Bounded
-  real   the same services on the real scheduler (wall clock, short slots); Trace_Bounded (Sample lines)
+         (virtual time, recording scheduler), and the in-flight batch: short runs in which the duties of the
+         current epoch are refreshed while one of its attestation jobs is running (held at the node);
+         Trace_Bounded
+  real   the same services on the real scheduler (wall clock, short slots); Trace_Bounded (Sample lines,
+         InFlight lines for attestations held while their epoch is refreshed)
   bids   the real block relay's builderBidsCache; Trace_Bounded (Auction lines)
   strat  the seven `first` strategies: goroutines left blocked in their send; Trace_Unblind
   unb    unblindProposal: blocked senders, waiting for ever; Trace_Unblind
@@ -54,8 +57,32 @@ def drive(part, scenarios, tag, patient=False):
 # --------------------------------------------------------------------------------------
 # scenarios
 
-def bounded_scenarios(part, cfg, want, num, depth, base):
-    hs = vf.tlc_scenarios(sub(part), "Scen_Bounded", cfg, num=num, depth=depth, timeout=900, name="scen")
+def inflight_cover(h):
+    """how often the scenario refreshes the duties of an epoch while an attestation job of that epoch runs"""
+    p, running, n = h[0].get("p", 4), set(), 0
+    for x in h:
+        if x["ev"] == "AttStart":
+            running.add(x["s"])
+        elif x["ev"] == "AttEnd":
+            running.discard(x["s"])
+        elif x["ev"] == "Head":
+            n += sum(1 for e in x.get("r", []) if any(s // p == e for s in running))
+    return n
+
+
+def bounded_scenarios(part, cfg, want, num, depth, base, name="scen", inflight=False):
+    hs = vf.tlc_scenarios(sub(part), "Scen_Bounded", cfg, num=num, depth=depth, timeout=900, name=name)
+    if inflight:
+        # the in-flight batch is there for one situation: it must be in every scenario of it
+        hs = [h for h in hs if inflight_cover(h) >= 3]
+        # a behaviour may be printed twice with a different last step
+        firsts, kept = set(), []
+        for h in hs:
+            k = json.dumps(h[:120], sort_keys=True)
+            if k not in firsts:
+                firsts.add(k)
+                kept.append(h)
+        hs = kept
     # cover the options of the services: inclusion verification on / off, aggregator never / sometimes / always
     chosen, seen = [], set()
     for h in hs:
@@ -78,6 +105,8 @@ def bounded_scenarios(part, cfg, want, num, depth, base):
     out = []
     for i, h in enumerate(chosen):
         s = {"sc": base + i, "part": part, "fam": h[0].get("fam", "all"), "steps": h}
+        if inflight:
+            s["batch"] = "inflight"
         if part == "real":
             s["slotms"] = 150
         out.append(s)
@@ -122,9 +151,23 @@ def sig_call(s, line):
     return {"part": s["part"], "site": s["site"], "event": (line or {}).get("ev", "?")}
 
 
+def refreshed_in_flight(s, rows):
+    """lines recorded from the real code at which the duties of an epoch were fetched again (a refresh) while
+    an attestation job of that epoch was running: CancelJob failed for it"""
+    p = s["steps"][0].get("p", 4)
+    n = 0
+    for r in rows:
+        if r.get("ev") == "Head" and any(x // p in r.get("fetched", []) for x in r.get("running", [])):
+            n += 1
+        if r.get("ev") == "InFlight" and r.get("running") and r.get("refreshed"):
+            n += 1
+    return n
+
+
 def nontrivial_bounded(s, rows):
     """the antecedents of the property occur: a refresh that withdraws a scheduled attestation, an epoch
-    without duties or without head event, an attestation run that fails"""
+    without duties or without head event, an attestation run that fails; a refresh of the epoch of an
+    attestation job that is running"""
     prev, withdrew, failed = set(), False, False
     for r in rows:
         cur = set(r.get("attjobs", []))
@@ -137,7 +180,7 @@ def nontrivial_bounded(s, rows):
         return sum(1 for r in rows if r.get("ev") == "Auction") > 64
     if s["part"] == "real":
         return any(r.get("ev") == "Sample" and r.get("njobs", 0) > 0 for r in rows)
-    return withdrew and failed
+    return (withdrew and failed) or refreshed_in_flight(s, rows) > 0
 
 
 def nontrivial_call(s, rows):
@@ -162,6 +205,17 @@ def conform(v, part, scenarios, tier, aspects, sig_of, nontrivial, confirm_patie
     missing = [i for i in by_id if i not in per]
     if missing:
         raise vf.Broken("driver of part %s produced no trace for scenarios %s" % (part, missing[:5]))
+    if part == "ctl":
+        # the binding must have reached the situation the in-flight batch is made for (else it proves nothing)
+        hits = sum(refreshed_in_flight(s, per[s["sc"]]) for s in scenarios)
+        with _lock:
+            v.coverage["refreshes_with_job_in_flight"] = v.coverage.get("refreshes_with_job_in_flight", 0) + hits
+        if len(scenarios) > 1 and hits < 5:
+            raise vf.Broken("only %d refreshes were recorded while an attestation job of the epoch was running" % hits)
+    if part == "real":
+        with _lock:
+            v.coverage["real_refreshes_with_job_in_flight"] = v.coverage.get("real_refreshes_with_job_in_flight", 0) + \
+                sum(refreshed_in_flight(s, per[s["sc"]]) for s in scenarios)
     order = [s["sc"] for s in scenarios]
     dfs = module == "Trace_Unblind"
     rejected = set()
@@ -261,7 +315,9 @@ CALL_ASPECTS = [("all", "Trace_Unblind.cfg")]
 def model_checking(v, tier):
     """Exhaustive runs of the designs, and the sensitivity of the models: the housekeeping and the
     channel capacities of the code as found must violate each invariant (else the model is vacuous)."""
-    jobs = [("Bounded", "MC_Bounded.cfg", 8), ("Unblind", "MC_Unblind.cfg", 4), ("Collector", "MC_Collector_c20.cfg", 4)]
+    jobs = [("Bounded", "MC_Bounded.cfg", 8), ("Unblind", "MC_Unblind.cfg", 4), ("Collector", "MC_Collector_c20.cfg", 4),
+            # a refresh that clears the mark of every slot of the epoch: invisible while no job is running
+            ("Bounded", "MC_Bounded_clearall_atrest.cfg", 2)]
     if tier == "thorough":
         jobs += [("Bounded", "MC_Bounded_big.cfg", 8), ("Unblind", "MC_Unblind_big.cfg", 8)]
     res = []
@@ -273,8 +329,19 @@ def model_checking(v, tier):
         pinned_calls = [ex.submit(vf.tlc, sub("mc"), "pin-" + c, m, c + ".cfg", 2, 600)
                         for m, c in [("Unblind", "MC_Unblind_pinned_first"), ("Unblind", "MC_Unblind_pinned_cap"),
                                      ("Unblind", "MC_Unblind_pinned_wait"), ("Collector", "MC_Collector_c20_cap1")]]
+        # jobs with duration: the model contains a refresh over a running job (CancelJob fails), the late
+        # reschedule over a running job, two jobs running; and clearing every mark of the epoch violates
+        # PendingExact
+        sens = [(c, inv, ex.submit(vf.tlc, sub("mc"), "sens-" + c, "Bounded", c + ".cfg", 2, 600))
+                for c, inv in [("MC_Bounded_clearall", "PendingExact")] +
+                [("MC_Bounded_reach_" + x, x) for x in ("NeverRefreshOverRunning", "NeverReschedOverRunning", "NeverTwoRunning")]]
         for f in futs:
             res.append(f.result())
+        for c, inv, f in sens:
+            r = f.result()
+            if r["kind"] != "invariant" or r["violated"] != inv:
+                raise vf.Broken("%s no longer violates %s: the model lacks the running-job situations (%s %s)"
+                                % (c, inv, r["kind"], r["violated"]))
         for a, f in zip(PINNED, pinned):
             r = f.result()
             if r["kind"] != "invariant" or r["violated"] != a:
@@ -310,14 +377,36 @@ def run(tier):
     t0 = time.time()
     threads = [threading.Thread(target=guarded, args=(model_checking, v, tier))]
 
+    def both(*fns):
+        out = [None] * len(fns)
+
+        def one(i):
+            try:
+                out[i] = fns[i]()
+            except Exception as e:  # noqa: BLE001
+                out[i] = e
+        ts = [threading.Thread(target=one, args=(i,)) for i in range(len(fns))]
+        for t in ts:
+            t.start()
+        for t in ts:
+            t.join()
+        for x in out:
+            if isinstance(x, Exception):
+                raise x
+        return [s for x in out for s in x]
+
     def part_ctl():
-        sc = bounded_scenarios("ctl", "Scen_Bounded_big.cfg" if big else "Scen_Bounded.cfg", 16 if big else 4,
-                               48 if big else 20, 30000 if big else 8000, 1)
+        sc = both(lambda: bounded_scenarios("ctl", "Scen_Bounded_big.cfg" if big else "Scen_Bounded.cfg", 16 if big else 4,
+                                            48 if big else 9, 30000 if big else 8000, 1),
+                  lambda: bounded_scenarios("ctl", "Scen_Bounded_inflight.cfg", 48 if big else 10, 90 if big else 24,
+                                            700, 101, name="scen-inflight", inflight=True))
         conform(v, "ctl", sc, tier, BOUNDED_ASPECTS, sig_bounded, nontrivial_bounded)
 
     def part_real():
-        sc = bounded_scenarios("real", "Scen_Bounded_real_big.cfg" if big else "Scen_Bounded_real.cfg", 4 if big else 2,
-                               12, 8000, 1001)
+        sc = both(lambda: bounded_scenarios("real", "Scen_Bounded_real_big.cfg" if big else "Scen_Bounded_real.cfg",
+                                            3 if big else 1, 12, 8000, 1001),
+                  lambda: bounded_scenarios("real", "Scen_Bounded_real_inflight.cfg", 3 if big else 1, 8, 8000, 1051,
+                                            name="scen-inflight", inflight=True))
         conform(v, "real", sc, tier, REAL_ASPECTS, sig_bounded, nontrivial_bounded)
 
     def part_bids():
@@ -347,11 +436,14 @@ def run(tier):
     v.coverage["rule"] = (
         "ctl/real/bids: TLC-simulated behaviours of Bounded.tla (duty patterns incl. empty epochs, head events and "
         "whole-epoch gaps, reorgs that refresh scheduled duties, node outages, aggregator never/sometimes/always, inclusion "
-        "verification on/off) of 64+ epochs (quick) / 256+ (thorough) replayed on the real controller + attester + sync "
+        "verification on/off; attestation jobs with duration: head events, refreshes of the running job's epoch, late "
+        "duty replies, the next slot's job, probes and the clock between AttStart and AttEnd) of 64+ epochs (quick) / 256+ "
+        "(thorough), plus an in-flight batch of 11-epoch behaviours in which the current epoch is only refreshed while one "
+        "of its attestation jobs is running, replayed on the real controller + attester + sync "
         "committee messenger/aggregator (virtual time), on the real scheduler (wall clock), and on the real block relay; "
         "strat/unb: initial states of Unblind.tla (enumerated by TLC, sampled) replayed on the seven `first` strategies and "
-        "on unblindProposal. non-trivial = a refresh withdrew a scheduled attestation and an attestation run failed "
-        "(ctl), jobs seen in the real table (real), more auctions than the window (bids), three or more providers "
+        "on unblindProposal. non-trivial = a refresh withdrew a scheduled attestation and an attestation run failed, or an "
+        "epoch was refreshed while one of its attestation jobs was running (ctl), jobs seen in the real table (real), more auctions than the window (bids), three or more providers "
         "answering, or every relay failing under a context without deadline (calls); distinct by scenario content")
     return v.finish()
 
